@@ -622,6 +622,27 @@ func (u *Unit) specCall(st *State, e *SExpr, env *SpecEnv, q *bool) *Val {
 			return boolVal("true")
 		}
 		return boolVal("false")
+	case "otherMapsUnchanged", "mapsUnchanged": // mapsUnchanged(m) / otherMapsUnchanged(m): every map of m's type that existed at function entry has its entry contents
+		m := ev(0)
+		if env.old == nil {
+			return boolVal("true")
+		}
+		mt, ok := types.Unalias(m.T).Underlying().(*types.Map)
+		if !ok {
+			u.eng.specError("%s: mapsUnchanged needs a map", env.what)
+			return boolVal("true")
+		}
+		dom, val, ks, vs := u.mapNames(mt)
+		bvCounter++
+		r := fmt.Sprintf("mu!%d", bvCounter)
+		*q = true
+		cd, od := u.heapGet(st, dom, arrSort(ks, SBool)), u.heapGet(env.old, dom, arrSort(ks, SBool))
+		cv, ov := u.heapGet(st, val, arrSort(ks, vs)), u.heapGet(env.old, val, arrSort(ks, vs))
+		cond := app("<=", r, env.old.wm)
+		if fn.Name == "otherMapsUnchanged" {
+			cond = tAnd(cond, app("distinct", r, m.S))
+		}
+		return boolVal(fmt.Sprintf("(forall ((%s Int)) (=> %s (and (= (select %s %s) (select %s %s)) (= (select %s %s) (select %s %s)))))", r, cond, cd, r, od, r, cv, r, ov, r))
 	case "sameSlice": // sameSlice(a, b): same contents and length
 		a, b := ev(0), ev(1)
 		return boolVal(tAnd(tEq(a.Arr, b.Arr), tEq(a.Len, b.Len)))
